@@ -23,6 +23,7 @@ from props.krylov_common import arr, col, inner, same, set_col, state_array, vno
 from vcgen import alg, idx, kidx
 from vcgen.core import DISCHARGED, FAILED, Ob, pmap
 from vcgen.idx import Ent, IArr, ents_expr, ifns
+from vcgen.kidx import one
 from vcgen.proxy import CTX, SBool, SInt, SScal, Unsupported, iterm
 
 R, I = z3.RealSort(), z3.IntSort()
@@ -89,6 +90,119 @@ def loop_one(dt):
         goals.append(("stop: continue iff i <= max_iters and some column has Re beta_{i-1} > tol * Re beta_1 or i <= 1", cterm == spec_cond(S, i2, m, tol, b)))
         return goals
     return K.run_paths(f"C14/lanczos_fact[{dt}]", FN + "lanczos_fact", thunk, dict(engine="LANCZOS", part="loop", dtype=dt),
+                       extra_backend=dict(while_loop_winfo=K.capture_loop(store)))
+
+
+def orth_one(dt):
+    """Orthonormality of the Lanczos basis, proved modularly from the real code (finite-sum algebra, vcgen/symalg.py, sympy back end; z3 for the entrywise parts).
+
+    (P1) contract of the REAL do_gram(vec, w) for an arbitrary buffer and vector: if  <vec_a, vec_b> = delta_ab g(a)  (columns pairwise orthogonal, g(a) = ||vec_a||^2)
+         then  <vec_l, out> = (1 - g(l)) <vec_l, w>  for every column l: the result is orthogonal to every unit column.
+    (P2) the REAL body_fun with do_gram replaced by that contract: both passes are given the buffer Vn = V with column i normalised; the second pass is applied to the
+         result of the first; V' = Vn with column i+1 := the result of the second pass; no other column changes.
+    (P3) Vn inherits the hypothesis:  <Vn_a, Vn_b> = delta_ab gn(a)  with gn(i) = 1 and gn(a) = g(a) elsewhere, from the same hypothesis on V with g(i) = ||V_i||^2 > 0.
+    Hence, if columns 1..i-1 of V are orthonormal, V_i is orthogonal to them and the unused columns are zero (g = 1, ||V_i||^2, 0), then columns 1..i of V' are orthonormal
+    and V'_{i+1} is orthogonal to them: the basis stays orthonormal in exact arithmetic (the start vector is normalised by init_lanczos)."""
+    import sympy as sp
+    from vcgen import symalg
+    from vcgen.rules import sym_dim
+    L = importlib.import_module("cola.linalg.decompositions.lanczos")
+    dtype = np.float64 if dt == "real" else np.complex128
+    store = {}
+
+    def thunk():
+        n, b, m = sym_dim("n"), sym_dim("b"), sym_dim("m")
+        bb, l0, a0 = z3.Int(CTX.fresh("bb")), z3.Int(CTX.fresh("l")), z3.Int(CTX.fresh("a"))
+        CTX.assume(z3.And(bb >= 0, bb < b.term, l0 >= 0, l0 < m.term + 2, a0 >= 0, a0 < m.term + 2))
+
+        def decide(c):
+            return alg.implied(CTX.facts(), c)
+        T = symalg.Translator(dt == "complex", decide)
+        g = sp.Function("colnorm2", real=True)
+        goals = []
+
+        def inner_rule(fname):
+            F_ = T.fn(fname)
+
+            def rule(f, v, lo, hi):
+                facs = list(sp.Mul.make_args(f))
+                coeff = [x for x in facs if not x.has(v)]
+                rest = []
+                for x in facs:
+                    if x.has(v):
+                        rest += [x.base, x.base] if (isinstance(x, sp.Pow) and x.exp == 2) else [x]
+                if len(rest) != 2:
+                    return None
+
+                def vcol(x):
+                    y = x.args[0] if isinstance(x, sp.conjugate) else x
+                    if getattr(y, "func", None) == F_ and len(y.args) == 3 and y.args[1] == v and not y.args[2].has(v):
+                        return y.args[2], isinstance(x, sp.conjugate)
+                    return None
+                qa, qb = vcol(rest[0]), vcol(rest[1])
+                if qa and qb and (dt == "real" or qa[1] != qb[1]):
+                    return sp.Mul(*coeff) * sp.KroneckerDelta(qa[0], qb[0]) * g(qa[0])
+                return None
+            return rule
+
+        def name_of(arr):
+            return arr.fn(*[z3.IntVal(0)] * len(arr.shape))[0].val.decl().name()
+        # ---------------------------------------------------------------- (P1) the real do_gram on arbitrary data
+        vec = state_array("vec", (b, n, m + 2), dtype)
+        w = state_array("w", (b, n), dtype)
+        out = L.do_gram(vec, arr((b, n), lambda bb_, r_: one(w, bb_, r_), dtype), ifns)
+        l_s = T.tr(l0)
+        e = T.tr(one(inner(col(vec, SInt(l0)), out), bb))
+        e = symalg.interchange(e)
+        e = symalg.rewrite_sums(e, inner_rule(name_of(vec)))
+        e = symalg.collapse_deltas(e, in_range=lambda sol, lo, hi: sp.simplify(sol - l_s) == 0)
+        want = (1 - g(l_s)) * T.tr(one(inner(col(vec, SInt(l0)), w), bb))
+        goals.append(("P1 do_gram: <vec_l, out> = (1 - ||vec_l||^2) <vec_l, w> for pairwise orthogonal columns (so out is orthogonal to every unit column)",
+                      bool(symalg.is_zero(e - want))))
+        # ---------------------------------------------------------------- (P2) the real body over the contract of do_gram
+        A, a = idx.make_abstract_op("A", n, n, dtype)
+        V = state_array("V", (b, n, m + 2), dtype)
+        D = state_array("alpha", (b, m), dtype)
+        S = state_array("beta", (b, m + 1), dtype)
+        i = SInt(z3.Int(CTX.fresh("i")))
+        CTX.assume(z3.And(i.term >= 1, i.term <= m.term))
+        calls = []
+
+        def gram_stub(vec_, new_vec_, xnp_):
+            r_ = state_array(f"gram_out{len(calls)}", new_vec_.shape, new_vec_.dtype)
+            calls.append((vec_, new_vec_, r_))
+            return r_
+        old = L.do_gram
+        L.do_gram = gram_stub
+        try:
+            L.lanczos_fact(A, (V, D, S, i), max_iters=m, tol=SScal(z3.Real(CTX.fresh("tol"))))
+            V1, D1, S1, i1 = store["body"]((V, D, S, i))
+        finally:
+            L.do_gram = old
+        Vn = set_col(V, i, col(V, i) / vnorm(col(V, i), keepdims=True))
+        goals.append(("P2 two Gram-Schmidt passes", len(calls) == 2))
+        if len(calls) == 2:
+            same("P2 pass 1 projects against the buffer with column i normalised", calls[0][0], Vn, goals)
+            same("P2 pass 2 projects against the same buffer", calls[1][0], Vn, goals)
+            same("P2 pass 2 is applied to the result of pass 1", calls[1][1], calls[0][2], goals)
+            same("P2 V' = that buffer with column i+1 := the result of pass 2 (no other column changes)", V1, set_col(Vn, i + 1, calls[1][2]), goals)
+        # ---------------------------------------------------------------- (P3) the normalised buffer inherits the hypothesis
+        i_s, a_s = T.tr(i.term), T.tr(a0)
+        rule_V = inner_rule(name_of(V))
+
+        def red(expr, distinct=()):
+            e_ = symalg.interchange(expr)
+            e_ = symalg.rewrite_sums(e_, rule_V)
+            e_ = symalg.collapse_deltas(e_, known_zero=distinct)
+            return symalg.normal(e_)
+        e_ii = red(T.tr(one(inner(col(Vn, i), col(Vn, i)), bb)))
+        goals.append(("P3 <Vn_i, Vn_i> = 1", bool(symalg.is_zero(e_ii - 1))))
+        e_ai = red(T.tr(one(inner(col(Vn, SInt(a0)), col(Vn, i)), bb)), distinct=[(a_s, i_s)])
+        goals.append(("P3 <Vn_a, Vn_i> = 0 for a != i", bool(symalg.is_zero(e_ai))))
+        e_al = red(T.tr(one(inner(col(Vn, SInt(a0)), col(Vn, SInt(l0))), bb)), distinct=[(a_s, i_s), (l_s, i_s)])
+        goals.append(("P3 <Vn_a, Vn_l> = delta_al ||V_a||^2 for a, l != i", bool(symalg.is_zero(e_al - sp.KroneckerDelta(a_s, l_s) * g(a_s)))))
+        return goals
+    return K.run_paths(f"C14/lanczos orthonormality[{dt}]", FN + "lanczos_fact", thunk, dict(engine="LANCZOS", part="orth", dtype=dt),
                        extra_backend=dict(while_loop_winfo=K.capture_loop(store)))
 
 
@@ -227,13 +341,13 @@ def run(chk):
     chk.assume("batched start vectors go through xnp.vmap, which the NumPy backend does not implement: outside the domain")
     tasks = [("loop", "real"), ("loop", "complex"), ("init", "real"), ("init", "complex"), ("init", "mixed"),
              ("wrapper", "real", "cap<n"), ("wrapper", "real", "cap>=n"), ("wrapper", "complex", "cap<n"), ("wrapper", "complex", "cap>=n"),
-             ("eigs", "real"), ("eigs", "complex")]
+             ("eigs", "real"), ("eigs", "complex"), ("orth", "real"), ("orth", "complex")]
     for nm in ("lanczos_fact", "init_lanczos", "lanczos", "lanczos_eigs", "do_gram", "do_double_gram"):
         chk.under_contract(FN + nm)
 
     def work(j):
         t = tasks[j]
-        return {"loop": loop_one, "init": init_one, "wrapper": wrapper_one, "eigs": eigs_one}[t[0]](*t[1:])
+        return {"loop": loop_one, "init": init_one, "wrapper": wrapper_one, "eigs": eigs_one, "orth": orth_one}[t[0]](*t[1:])
     for obs in pmap(work, len(tasks)):
         for ob in obs:
             chk.add(ob)
